@@ -119,6 +119,9 @@ def build_corpus(tier, rng):
         hs = Item("E", [Variant("Fast", "unit"), Variant("Slow", "unit", [], [aci(True, explicit=False), ser("s")]), Variant("Plain", "unit", [], [ser("p")])])
         hs.hostile = [nm_]
         cands.append(("hostile-scope/" + nm_, hs))
+    for it in c01.declaration_order():
+        if not any(m.kind == "phf" for m in it.metas):
+            cands.append(("overlap", it))
     for it in c01.systematic(rng):
         for v in it.variants:
             if not v.has("default"):
